@@ -264,7 +264,12 @@ class Adapter:
                             and (act['polId'] or int(obj.id) == act['id']) \
                             and (act['polName'] or str(obj.name) == act['name'])
                         if legal and (int(obj.id) != act['id'] or str(obj.name) != act['name']):
-                            res['inconclusive'] = True
+                            leak = self.rejected_call_leaks(ctx, hist, k, (int(obj.id), str(obj.name)))
+                            if leak:
+                                res['div'].append(self.div(case, k, act['op'], 'rejected_call_changed_later_behaviour',
+                                                           exp, actual, got, features_of(act, prev) + ['after_rejected_call'], leak))
+                            else:
+                                res['inconclusive'] = True
                             break
                     else:
                         pre_atk_ids = {t['id'] for t in (prev['atk'] if prev else [])}
@@ -289,6 +294,24 @@ class Adapter:
         res['sample'] = {'lang': case['lang'] if isinstance(case['lang'], str) else case['lang']['id'],
                          'acts': acts}
         return res
+
+    def rejected_call_leaks(self, ctx, hist, k, chosen):
+        """'An operation that raises leaves the observable state unchanged': the value the code chooses at step k
+        (default id / automatic name) must be the same when the rejected calls before it are left out."""
+        if not any(s['act']['res'] == 'exc' for s in hist[:k]):
+            return None
+        twin = ModelDriver(ctx)
+        for s in hist[:k]:
+            if s['act']['res'] == 'exc':
+                continue
+            twin.apply(s['act'])
+        if twin.apply(hist[k]['act']) != 'ok':
+            return None
+        obj = twin.objs.get(hist[k]['act']['h'])
+        other = (int(obj.id), str(obj.name))
+        if other != chosen:
+            return {'with_rejected_calls': list(chosen), 'without_rejected_calls': list(other)}
+        return None
 
     def div(self, case, k, op, comp, exp, actual, got, feats, d=None):
         return {'kind': 'divergence', 'step': k, 'action': op, 'component': comp, 'features': sorted(set(feats)),
